@@ -16,7 +16,7 @@ Task: produce ONE realistic change to the chain33 source (non-test .go files) in
 
 Deliver, inside /tmp/mut_{pid}:
  1. the source change itself (leave it applied in the worktree, uncommitted),
- 2. a demonstration: a new Go test file (name it zz_mutdemo_test.go in the relevant package) that FAILS with your change and PASSES on the original code. Verify both: run it with the change applied, then `git stash` the source change (keep the test), run again, then `git stash pop`.
+ 2. a demonstration: a new Go test file (name it zz_mutdemo_test.go in the relevant package) that FAILS with your change and PASSES on the original code. Verify both: run it with the change applied, then save the source change with `git diff -- . ":(exclude)*zz_mutdemo_test.go" > /tmp/mut_{pid}.patch`, revert it with `git apply -R /tmp/mut_{pid}.patch` (keep the test), run again, then re-apply with `git apply /tmp/mut_{pid}.patch`. Do NOT use git stash (the stash is shared with other worktrees).
  3. confirm the package's existing tests still pass with the change: `go test -vet=off -count=1 ./<pkg>/...` for each touched package (skip only tests that also fail/time out on the unmodified code, and say which).
 
 Environment: offline sandbox. Before go commands: export GOFLAGS=-mod=mod GOPROXY=off GOSUMDB=off GOTOOLCHAIN=local . Use `timeout 600` on test runs.
